@@ -13,6 +13,7 @@ import NutsProofs.Lemmas.C07Example
 import NutsProofs.Lemmas.C07LiveO
 import NutsProofs.Lemmas.C07IbltB
 import NutsProofs.Lemmas.C07Disp
+import NutsProofs.Lemmas.C07Addr
 open Nuts.Proto Nuts Nuts.Proto.L Nuts.Proto.Live Nuts.C07.Ex
 
 namespace Nuts.C07.Props
@@ -745,5 +746,105 @@ example : factRoute (.txList (0, 0) 1 1 []) = .listChan ∧ factRoute .unsupport
   constructor <;> rw [fact_dispatch_table_routes]
 
 end DispProps
+
+/-! ### Deepening round 3: how the periodic Gossip message finds its connection (`sendGossip`, grpc predicates, `connectionList.get`) -/
+
+namespace AddrProps
+open Nuts.Proto.Addr
+
+/-- regenerated: `sendGossip` asks the connection list for a CONNECTED connection of exactly the queue's peer (peer key =
+    ID + node DID + address, the key the gossip manager files the queue under: `fact_gossip_peer_table_keys`), reports
+    `false` without a connection or when the send fails, `true` otherwise -/
+theorem fact_send_gossip_addressing :
+    Facts.C07.sendGossipQuery = ["grpc.ByConnected()", "grpc.ByPeer(transportPeer)"] ∧
+    Facts.C07.sendGossipFlow = ["assign:conn := p.connectionList.Get(grpc.ByConnected(), grpc.ByPeer(transportPeer))",
+      "if:conn == nil", "assign:err = grpc.ErrNoConnection", "assign:err = p.sendGossipMsg(conn, refs, xor, clock)",
+      "if:err != nil", "return:false", "return:true"] := by decide
+
+/-- the regenerated query, read by the model's interpreter, is the query the theorems below are about -/
+theorem fact_send_gossip_query_interpreted (p : TPeer) :
+    queryOfSrc p Facts.C07.sendGossipQuery = some (gossipQuery p) := by
+  simp [Facts.C07.sendGossipQuery, queryOfSrc, predOfSrc, gossipQuery]
+
+/-- regenerated: the predicates of grpc/predicate.go, the first-match loop of `connectionList.get` (an empty query selects
+    nothing; `continue outer` on the first predicate that does not match; the first survivor is returned) and the format of
+    `transport.Peer.Key()` -/
+theorem fact_connection_lookup_shape :
+    Facts.C07.predicateMatches = ["addressPredicate:return:predicate.address == conn.Peer().Address",
+      "authenticatedPredicated:return:conn.IsAuthenticated()", "connectedPredicate:return:conn.IsConnected() == predicate.connected",
+      "nodeDIDPredicate:return:conn.Peer().NodeDID.Equals(predicate.nodeDID)", "peerIDPredicate:return:conn.Peer().ID == predicate.peerID",
+      "peerPredicate:return:conn.Peer().Key() == predicate.peer.Key()"] ∧
+    Facts.C07.predicateCtors = ["ByAddress:return:&addressPredicate{address: address}", "ByAuthenticated:return:authenticatedPredicated{}",
+      "ByConnected:return:connectedPredicate{connected: true}", "ByNodeDID:return:nodeDIDPredicate{nodeDID: nodeDID}",
+      "ByNotConnected:return:connectedPredicate{connected: false}", "ByPeer:return:peerPredicate{peer: peer}",
+      "ByPeerID:return:peerIDPredicate{peerID: peerID}"] ∧
+    Facts.C07.connListGetFlow = ["if:len(query) == 0", "return:nil", "range:c.list", "range:query", "if:!predicate.Match(curr)",
+      "branch:continue outer", "return:curr", "return:nil"] ∧
+    Facts.C07.connListGetWrapper = ["return:c.get(query...)"] ∧
+    Facts.C07.peerKeyFlow = ["return:fmt.Sprintf(\"%s(%s)@%s\", p.ID, p.NodeDID.String(), p.Address)"] := by decide
+
+/-- **The gossip of a peer's queue goes to that peer and to nobody else.** For EVERY connection list (any number of
+    connections, duplicates of a node DID, unauthenticated peers with the empty DID, disconnected entries, any order) and
+    every queue owner `p`: if `sendGossip` hands the message to connection `i`, that connection is connected and its peer
+    key is `p`'s key; and the queue is reported as sent (cleared) only if that connection accepted the message. -/
+theorem gossip_addressed_to_queue_owner (l : List Conn) (p : TPeer) :
+    (∀ i, (sendGossip l p).target = some i → ∃ c, l[i]? = some c ∧ c.connected = true ∧ c.peer.key = p.key ∧
+        (sendGossip l p).cleared = c.sendOK) ∧
+    ((sendGossip l p).target = none → (sendGossip l p).cleared = false) := by
+  unfold sendGossip sendGossipWith
+  cases hg : get l (gossipQuery p) with
+  | none => simp
+  | some k =>
+    obtain ⟨_, c, hc, hm, _⟩ := get_some hg
+    have := (matchesAll_gossip p c).mp hm
+    simp [hc, this.1, this.2]
+
+/-- **No spurious "no connection".** If the connection list holds a connected connection of the queue's peer, `sendGossip`
+    finds one (the first such entry of the list): a connected peer is never starved of gossip by the lookup. Conversely
+    ErrNoConnection means that no connected connection with the peer's key exists. -/
+theorem gossip_reaches_connected_owner (l : List Conn) (p : TPeer) :
+    ((∃ c ∈ l, c.connected = true ∧ c.peer.key = p.key) ↔ ∃ i, (sendGossip l p).target = some i) ∧
+    (∀ i, (sendGossip l p).target = some i → ∀ j c, j < i → l[j]? = some c → ¬ (c.connected = true ∧ c.peer.key = p.key)) := by
+  unfold sendGossip sendGossipWith
+  cases hg : get l (gossipQuery p) with
+  | none =>
+    have hn := get_none_of_nonempty (q := gossipQuery p) (by simp [gossipQuery]) hg
+    refine ⟨⟨?_, by simp⟩, by simp⟩
+    rintro ⟨c, hc, h1, h2⟩
+    have := hn c hc
+    rw [(matchesAll_gossip p c).mpr ⟨h1, h2⟩] at this
+    cases this
+  | some k =>
+    obtain ⟨_, c, hc, hm, hmin⟩ := get_some hg
+    have hcm := (matchesAll_gossip p c).mp hm
+    simp only [hc]
+    refine ⟨⟨fun _ => ⟨k, rfl⟩, fun _ => ⟨c, List.mem_of_getElem? hc, hcm.1, hcm.2⟩⟩, ?_⟩
+    intro i hi j c' hj hg' hh
+    simp at hi; subst hi
+    have := hmin j c' hj hg'
+    rw [(matchesAll_gossip p c').mpr hh] at this
+    cases this
+
+/-- **Addressing by node DID is NOT enough** (why the regenerated query must stay `ByPeer`): with two connected,
+    unauthenticated peers (both carry the empty node DID) the query `ByConnected, ByNodeDID` for the SECOND peer's queue
+    selects the FIRST peer's connection — the second peer never hears gossip. -/
+theorem did_addressing_starves_a_peer :
+    ∃ (l : List Conn) (p : TPeer), (∃ c ∈ l, c.connected = true ∧ c.peer.key = p.key) ∧
+      ∃ i c, (sendGossipWith [.byConnected true, .byNodeDID p.did] l).target = some i ∧ l[i]? = some c ∧ c.peer.key ≠ p.key :=
+  ⟨[{ peer := ⟨"a", "", "a:1"⟩, connected := true, authenticated := false },
+    { peer := ⟨"b", "", "b:1"⟩, connected := true, authenticated := false }], ⟨"b", "", "b:1"⟩,
+   ⟨_, List.mem_cons_of_mem _ (List.mem_cons_self ..), rfl, rfl⟩, 0, _, by decide, rfl, by decide⟩
+
+/-- an empty query selects nothing (`get`: "make sure we're not returning the first random connection by accident") -/
+theorem empty_query_selects_nothing (l : List Conn) : get l [] = none := rfl
+
+/-- non-vacuity: three connections, the queue of the third; the first has the same DID, the second is a stale disconnected
+    entry with the same key -/
+example : sendGossip [{ peer := ⟨"a", "did:nuts:x", "a:1"⟩, connected := true, authenticated := true },
+      { peer := ⟨"b", "did:nuts:x", "b:1"⟩, connected := false, authenticated := true },
+      { peer := ⟨"b", "did:nuts:x", "b:1"⟩, connected := true, authenticated := true, sendOK := false }] ⟨"b", "did:nuts:x", "b:1"⟩
+    = { target := some 2, cleared := false } := by decide
+
+end AddrProps
 
 end Nuts.C07.Props
